@@ -24,7 +24,7 @@ Final == I!Finish(s).w
 
 \* C01 / C04 / C14 (order, once, own section): the rows of the complete run are the expected ones
 Cex(name) == PrintT(<<"CEX", ToJson([inv |-> name, h |-> hist])>>) /\ FALSE
-RowsOnceInOrder == O!SameRows(O!Required(O!Expected(hist)), Final) \/ Cex("RowsOnceInOrder")
+RowsOnceInOrder == O!SameRowsOpt(O!Expected(hist), Final) \/ Cex("RowsOnceInOrder")
 
 \* C11: bounded lag and never revised
 Lag == O!LagOK(hist, s.w, Buf) \/ Cex("Lag")
